@@ -1489,6 +1489,45 @@ def norm_axioms(ex, points):
     return ax
 
 
+def _ewise(f, *xs):
+    """elementwise over broadcastable SArr / scalars"""
+    arrs = [x for x in xs if isinstance(x, SArr)]
+    if not arrs:
+        return f(*xs)
+    big = max(arrs, key=lambda a: len(a.shape))
+    def at(x, i):
+        if isinstance(x, SArr):
+            off = len(i) - len(x.shape)
+            return x.elem(*[0 if (concrete(x.shape[k]) and x.shape[k] == 1) else i[off + k] for k in range(len(x.shape))])
+        return x
+    dt = "int" if all((a.dtype == "int") for a in arrs) and all(isinstance(x, (int, SArr)) or (is_z3(x) and x.sort() == z3.IntSort()) for x in xs) else "real"
+    return SArr(big.shape, lambda *i: f(*[at(x, i) for x in xs]), dt)
+
+
+def _numz(x):
+    return x if (isinstance(x, int) or (is_z3(x) and x.sort() == z3.IntSort())) else zreal(x)
+
+
+def lib_minimum(ex, args, kwargs, pc):
+    return _ewise(lambda a, b: z3.If(_numz(a) <= _numz(b), _numz(a), _numz(b)) if (is_z3(a) or is_z3(b)) else min(a, b), args[0], args[1])
+
+
+def lib_maximum(ex, args, kwargs, pc):
+    return _ewise(lambda a, b: z3.If(_numz(a) >= _numz(b), _numz(a), _numz(b)) if (is_z3(a) or is_z3(b)) else max(a, b), args[0], args[1])
+
+
+def lib_clip(ex, args, kwargs, pc):
+    x = args[0]
+    lo = args[1] if len(args) > 1 else kwargs.get("min", kwargs.get("a_min"))
+    hi = args[2] if len(args) > 2 else kwargs.get("max", kwargs.get("a_max"))
+    out = x
+    if lo is not None:
+        out = lib_maximum(ex, [out, lo], {}, pc)
+    if hi is not None:
+        out = lib_minimum(ex, [out, hi], {}, pc)
+    return out
+
+
 def lib_sum(ex, args, kwargs, pc):
     """jnp.sum over the last axis of an array whose last extent is concrete"""
     a = args[0]
@@ -1776,6 +1815,9 @@ LIB = {
     "jnp.unravel_index": lib_unravel_index,
     "jnp.linalg.norm": lib_norm,
     "jnp.sum": lib_sum,
+    "jnp.minimum": lib_minimum,
+    "jnp.maximum": lib_maximum,
+    "jnp.clip": lib_clip,
     "jax.lax.fori_loop": lib_fori_loop,
     "jax.tree_util.tree_map": lib_tree_map,
     "jax.tree_util.tree_structure": lib_tree_structure,
